@@ -8,7 +8,7 @@
 (***************************************************************************)
 EXTENDS Helm, HelmProps
 
-AllObjs == {"r1", "r2", "r3", "r4", "h1", "h2", "h3", "by1", "c1", "c2"}
+AllObjs == {"r1", "r2", "r3", "r4", "h1", "h2", "h3", "h4", "by1", "c1", "c2"}
 Empty == [o \in AllObjs |-> Absent]
 By    == [f1 |-> "x", f2 |-> "-", own |-> "none", pol |-> "none"]
 Obj(own, f1) == [f1 |-> f1, f2 |-> "-", own |-> own, pol |-> "none"]
@@ -76,7 +76,7 @@ MenuCluster == Installs({"cA", "cB", "cC", "cK"}, B, F, F, B, F) \cup Upgrades({
                \cup Rollbacks({0, 1}, {0}, F, F, F) \cup Uninstalls(B, F, F)
                \cup Forced(Upgrades({"cA", "cB", "cC"}, F, F, {0}, F, F, F) \cup Rollbacks({0}, {0}, F, F, F))
 \* failed operations followed by retries (C02: what a retry diffs against)
-MenuRetry == Installs({"cA", "cC"}, B, F, F, F, F) \cup Upgrades({"cA", "cB", "cC", "cK", "cV"}, F, B, {0}, F, F, F)
+MenuRetry == Installs({"cA", "cC"}, B, F, F, F, F) \cup Upgrades({"cA", "cB", "cC", "cK", "cV"}, F, B, {0, 1}, F, F, F)
              \cup Rollbacks({0}, {0}, F, F, F)
 \* fault family (C03): atomic x cleanup x no-hooks
 MenuFault == Installs({"cA", "cH"}, B, B, B, F, F) \cup Upgrades({"cB", "cI", "cC"}, B, B, {0}, B, F, F)
@@ -105,7 +105,7 @@ EditsClusterEnum == {[kind |-> "edit", res |-> "r1", field |-> "f1", value |-> "
                      [kind |-> "oobnew", res |-> "r2", field |-> "", value |-> "none"],
                      [kind |-> "oobnew", res |-> "r3", field |-> "", value |-> "none"]}
 \* fault family: every history of up to two operations is a base of the fault sweep
-MenuFaultEnum == Installs({"cA"}, B, B, F, F, F) \cup Upgrades({"cB"}, B, B, {0}, F, F, F) \cup Rollbacks({0}, {0}, F, B, F)
+MenuFaultEnum == Installs({"cA", "cH"}, B, B, F, F, F) \cup Upgrades({"cB", "cI"}, B, B, {0}, F, F, F) \cup Rollbacks({0}, {0}, F, B, F)
                  \cup UpInstalls({"cA"}, B, F, F, F, F) \cup Uninstalls(B, F, F)
 \* ownership family: a hook's name re-used by a template, with a stranger of that name arriving in between
 MenuOwnHookEnum == Installs({"cH"}, F, F, B, F, F) \cup Upgrades({"cU", "cA"}, F, F, {0}, F, B, F)
@@ -122,6 +122,7 @@ MenuOwn == Installs({"cA", "cB", "cL", "cS"}, B, F, F, B, F) \cup Upgrades({"cB"
            \* cH has a hook named h2 (deleted once it succeeded); cU ships an ordinary ConfigMap of that name: a
            \* template that stopped being a hook is a resource "to be created" like any other
            \cup Installs({"cH"}, F, F, B, F, F) \cup Upgrades({"cU"}, F, F, {0}, F, B, F)
+           \cup Uninstalls({TRUE}, F, F)                      \* (a kept history: install --replace over it)
            \cup Uninstalls(F, F, F) \cup Rollbacks({0}, {0}, F, F, F)
 \* hooks family (C12)
 Tests == {U("test", "none")}
